@@ -60,3 +60,5 @@ replace github.com/DistCompiler/pgo/systems/gcounter => /repo/systems/gcounter
 replace github.com/DistCompiler/pgo/systems/shopcart => /repo/systems/shopcart
 
 replace github.com/DistCompiler/pgo/systems/nestedcrdtimpl => /repo/systems/nestedcrdtimpl
+
+replace github.com/DistCompiler/pgo/systems/replicatedkv => /repo/systems/replicatedkv
